@@ -29,7 +29,7 @@ def dispatch (p : String) (j : Json) : Except String Verdict :=
   | "C07" => if jStrD j "op" "" = "sys" then Sys.check "C07" j else Conc.check "C07" j
   | "C08" => C08.check j
   | "C09" => C09.check j
-  | "C10" => C10.check j
+  | "C10" => if jStrD j "op" "" = "sys" then Sys.check "C10" j else C10.check j
   | "C11" => Decode.check "C11" j
   | "C12" => Decode.check "C12" j
   | "C13" => Decode.check "C13" j
